@@ -49,7 +49,7 @@ RULES = ["deliver"] * 10 + ["inject"] * 3 + ["lose", "register",
 
 def strategy(tier):
     return st.one_of(kernel_side_strategy(), kernel_side_strategy(),
-                     kernel_side_strategy(), userspace_strategy())
+                     kernel_side_strategy(), c22.userspace_strategy())
 
 
 def kernel_side_strategy():
@@ -70,131 +70,9 @@ def kernel_side_strategy():
     })
 
 
-def userspace_strategy():
-    """the user-space half: the real FastSyncGroup.run() loop; the frames it
-    gets back are the ones the kernel side handed up (write datagrams enabled,
-    non-zero loop counter); some transmissions get lost"""
-    return st.fixed_dictionaries({
-        "kind": st.just("userspace"),
-        "group": groups.fast_group_strategy(
-            max_terminals=2,
-            types=["AnalogOutput", "DigitalOutput", "AnalogInput", "Custom"]),
-        "lose": st.lists(st.integers(0, 8), max_size=2, unique=True),
-        "active": st.lists(st.booleans(), min_size=4, max_size=4),
-        "loopbyte": st.integers(1, 255),
-    })
-
-
-def run_userspace(case):
-    import asyncio
-    import struct
-    import ebpfcat.ebpfcat as ebmod
-    from ebpfcat.ebpf import AssembleError
-    from ..sim import cyclic
-    from ..sim import loop as simloop
-    from ..vm import kernel
-    obs = {}
-    real_mono = ebmod.monotonic
-    ebmod.SyncGroup.packet_index = 1000
-    classes = ["userspace"]
-
-    async def go(loop):
-        ebmod.monotonic = loop.time
-        tx = {"n": 0}
-
-        def fault(no, frame):
-            if struct.unpack_from("<I", frame, 4)[0] != rig.sg.packet_index:
-                return {}
-            tx["n"] += 1
-            return {"lose": True} if tx["n"] - 1 in case["lose"] else {}
-
-        def on_response(no, sent, back):
-            if struct.unpack_from("<I", sent, 4)[0] != rig.sg.packet_index:
-                return back
-            k = sum(1 for s, r in rig.frames
-                    if struct.unpack_from("<I", s, 4)[0]
-                    == rig.sg.packet_index)
-            if not case["active"][k % len(case["active"])]:
-                return back
-            # what the kernel side hands up: an activated frame
-            back = bytearray(back)
-            back[3] = case["loopbyte"]
-            for start, stop, cmd in rig.sg.packet.on_the_fly:
-                back[start] = cmd.value
-            return bytes(back)
-
-        rig = cyclic.Rig(loop, case["group"], "fast", fault=fault,
-                         on_response=on_response)
-        obs["rig"] = rig
-        for t in rig.sg.terminals:
-            t.fmmu_used = [None] * 4
-        task = rig.sg.start()
-        for _ in range(4000):
-            await asyncio.sleep(0.001)
-            n = sum(1 for f in rig.transport.sent
-                    if struct.unpack_from("<I", f, 4)[0]
-                    == rig.sg.packet_index)
-            if n >= 12 or task.done():
-                break
-        task.cancel()
-        try:
-            await task
-        except asyncio.CancelledError:
-            obs["end"] = "cancelled"
-        except Exception as e:
-            obs["end"] = f"{type(e).__name__}: {e}"
-        else:
-            obs["end"] = "returned"
-
-    with kernel.tracking():
-        try:
-            simloop.run(go, budget=3000000)
-        except (AssembleError, OverflowError):
-            return dict(ok=True, nontrivial=False,
-                        classes=classes + ["rejected"])
-        except (simloop.LoopStalled, simloop.BudgetExceeded) as e:
-            obs["end"] = f"stalled: {e!r}"
-        finally:
-            ebmod.monotonic = real_mono
-    rig = obs.get("rig")
-    if rig is None or not rig.sg.packet.data:
-        return dict(ok=True, nontrivial=False, classes=classes + ["empty"])
-    sent = [f for f in rig.transport.sent
-            if struct.unpack_from("<I", f, 4)[0] == rig.sg.packet_index]
-    writers = rig.sg.packet.on_the_fly
-
-    def fail(what):
-        return dict(ok=False, nontrivial=True, classes=classes,
-                    bucket=("userspace", what[:40]),
-                    what=f"user-space side: {what}; lost transmissions "
-                         f"{case['lose']}, activated responses "
-                         f"{case['active']}, {len(sent)} cyclic transmissions"
-                         f", writers {[(a, c.name) for a, b, c in writers]}")
-    if obs.get("end") != "cancelled":
-        return fail(f"the group task ended as '{obs.get('end')}'")
-    if len(sent) < 6:
-        return fail(f"only {len(sent)} cyclic transmissions in 4 s")
-    for i, f in enumerate(sent):
-        bad = [start for start, stop, cmd in writers if f[start] != 0]
-        if bad:
-            return fail(f"cyclic transmission {i} left user space with "
-                        f"enabled write datagrams at {bad}")
-        if f[3] != 0:
-            return fail(f"cyclic transmission {i} left user space with loop "
-                        f"counter {f[3]} (a fresh frame carries 0)")
-    lost = [i for i in case["lose"] if i < len(sent) - 1]
-    return dict(ok=True,
-                nontrivial=bool(writers) and any(case["active"]),
-                key=repr(("u", len(writers), sorted(lost), case["active"])),
-                classes=classes + (["lost-transmission"] if lost else [])
-                + [f"writers={min(len(writers), 4)}"],
-                summary={"history": [f"{len(sent)} cyclic transmissions"],
-                         "lost": lost})
-
-
 def run_case(case):
     if case.get("kind") == "userspace":
-        return run_userspace(case)
+        return c22.run_userspace(case)
     res = c22.run_case(case, only_c21=True)
     if not res["ok"] or "stats" not in res:
         return res
